@@ -125,7 +125,21 @@ def run_case(spec, ctx):
             sub.q0[:3] = sub.q0[:3] + shift
             con = Sphere2Plane(frame, sub, mu, r=r, B_r_CP=B, e_N=e_N, e_F=e_F, anisotropy=aniso)
             system.add(frame, sub, con)
-            params = {"contact": "Sphere2Plane", "carrier": parts[1], "r": r, "B_r_CP": B, "mu": mu, "anisotropy": aniso, "plane_moving": mot.moving}
+            n_extra = 0
+            if rng.random() < 0.35:
+                # further contact spheres on the SAME body (a body with several contact points) against the same plane: the
+                # system-level quantities are sums / stacks over contacts that share the body's coordinates
+                n_extra = int(rng.integers(1, 3))
+                for j_ in range(n_extra):
+                    r_j = float(rng.uniform(0.02, 0.5))
+                    B_j = rng.normal(size=3) * 0.3
+                    c_j, _, _ = _kin(sub, None, t0, sub.q0, sub.u0, B_j)
+                    if n @ (c_j - mot.r(t0)) - r_j <= 0.05:
+                        r_j = max(0.0, float(n @ (c_j - mot.r(t0)) - 0.05))
+                    mu_j = mu if rng.random() < 0.7 else 0.0
+                    system.add(Sphere2Plane(frame, sub, mu_j, r=r_j, B_r_CP=B_j, e_N=e_N, e_F=e_F if mu_j > 0 else None, name=f"extra{j_}"))
+                ctx.cls(f"s2p:contacts_on_one_body:{n_extra + 1}")
+            params = {"contact": "Sphere2Plane", "carrier": parts[1], "r": r, "B_r_CP": B, "mu": mu, "anisotropy": aniso, "plane_moving": mot.moving, "extra_contacts": n_extra}
             subs, mots = [sub], [None]
         else:
             subs, mots = [], []
@@ -239,14 +253,14 @@ def run_case(spec, ctx):
                 T = np.asarray(con.t1t2(t, q[con.qDOF]), dtype=float) if mu > 0 else None
                 stretch = np.eye(2)
             ctx.mon("GEO:g_N")
-            gN = system.g_N(t, q)
+            gN = system.g_N(t, q)[con.la_NDOF]
             if abs(gN[0] - g_ref) > 1e-9 * (1 + abs(g_ref) + np.abs(q).max()):
                 ctx.violation(f"{label}.g_N", "normal gap differs from the signed distance between the contact surfaces", {**ex, "g_N": gN[0], "distance": g_ref})
             if mu > 0:
                 ctx.mon("GEO:gamma_F")
                 if np.abs(T @ T.T - np.eye(2)).max() > 1e-10 or np.abs(T @ n).max() > 1e-10:
                     ctx.violation(f"{label}.t1t2", "tangent basis is not orthonormal and perpendicular to the contact normal", {**ex, "T": T, "n": n})
-                gam = system.gamma_F(t, q, u)
+                gam = system.gamma_F(t, q, u)[con.la_FDOF]
                 ref = stretch.T @ (T @ vrel)
                 if np.abs(gam - ref).max() > 1e-9 * (1 + np.abs(vrel).max() * (1 + np.abs(stretch).max())):
                     ctx.violation(f"{label}.gamma_F", "friction velocity differs from the tangential relative velocity of the touching material points",
@@ -285,16 +299,17 @@ def run_case(spec, ctx):
                 g2_ref = np.linalg.norm(d2) - params["r1"] - params["r2"]
             ctx.mon("GEO:revisit")
             ex2 = {**params, "t_first": t, "t": t2, "q": q, "u": u}
-            g2 = system.g_N(t2, q)[0]
-            gd = system.g_N_dot(t2, q, u)[0]
+            iN = int(con.la_NDOF[0])
+            g2 = system.g_N(t2, q)[iN]
+            gd = system.g_N_dot(t2, q, u)[iN]
             sc = 1 + np.abs(u).max() + abs(gd_ref)
             if abs(g2 - g2_ref) > 1e-9 * (1 + abs(g2_ref) + np.abs(q).max()):
                 ctx.violation(f"{label}.g_N", "normal gap at the same coordinates but another time differs from the signed distance", {**ex2, "g_N": g2, "distance": g2_ref})
             if abs(gd - gd_ref) > 1e-9 * sc:
                 ctx.violation(f"{label}.g_N_dot", "normal gap velocity at the same coordinates but another time differs from the normal relative velocity of the contact points",
                               {**ex2, "g_N_dot": gd, "reference": gd_ref})
-            W = np.asarray(oracles_dense(system.W_N(t2, q)))[:, 0]
-            gd0 = system.g_N_dot(t2, q, np.zeros_like(u))[0]
+            W = np.asarray(oracles_dense(system.W_N(t2, q)))[:, iN]
+            gd0 = system.g_N_dot(t2, q, np.zeros_like(u))[iN]
             if abs(W @ u + gd0 - gd_ref) > 1e-9 * sc * (1 + np.abs(W).max()):
                 ctx.violation(f"{label}.W_N", "W_N^T u + g_N_dot(u=0) at the same coordinates but another time differs from the normal relative velocity",
                               {**ex2, "value": float(W @ u + gd0), "reference": gd_ref})
